@@ -285,29 +285,53 @@ class JobResult:
     waived: list = field(default_factory=list)
 
 
+import threading
+_src_lock = threading.Lock()
+_src_locks = {}
+SRC_CACHE = os.path.join(BUILD, "_src")
+
+
+def reset_source_cache():
+    """called once at the start of every check invocation: repository sources are recompiled from /repo's current tree"""
+    shutil.rmtree(SRC_CACHE, ignore_errors=True)
+    os.makedirs(SRC_CACHE, exist_ok=True)
+
+
+def compile_source(s, avx, strict, export_static):
+    """goto-cc -c of one UNMODIFIED repository file; shared by the jobs of one check invocation (the harness-only
+    -D defines of a job are not passed to repository sources)"""
+    src = os.path.join(SRC, s)
+    if not os.path.exists(src):
+        raise Undecided("extraction break: source %s missing" % s)
+    key = "%s.%d%d%d" % (s.replace("/", "__"), int(avx), int(strict), int(export_static))
+    out = os.path.join(SRC_CACHE, key + ".gb")
+    with _src_lock:
+        lk = _src_locks.setdefault(key, threading.Lock())
+    with lk:
+        if os.path.exists(out):
+            return out
+        os.makedirs(SRC_CACHE, exist_ok=True)
+        cmd = ["goto-cc", "-c", src, "-o", out + ".tmp", "-DNDEBUG", "-D" + GUARD, "-I" + SRC]
+        if avx:
+            cmd += ["-isystem", os.path.join(VERIF, "shim"), "-mavx2", "-mfma"]
+            if strict:
+                cmd += ["-DSHIM_STRICT"]
+        if export_static:
+            cmd += ["--export-file-local-symbols"]
+        rc, o, e = run(cmd, timeout=300)
+        if rc != 0:
+            raise Undecided("goto-cc failed on %s: %s" % (s, (e or o)[-600:]))
+        os.rename(out + ".tmp", out)
+        return out
+
+
 def compile_job(job, wd):
     os.makedirs(wd, exist_ok=True)
     defs = ["-DNDEBUG", "-D" + GUARD, "-D__CPROVER_VERIF__"]
     for k, v in job.defines.items():
         defs.append("-D%s=%s" % (k, v) if v is not None and v != "" else "-D%s" % k)
     inc = ["-I" + SRC, "-I" + os.path.join(VERIF, "contracts")]
-    gbs = []
-    for s in job.sources:
-        src = os.path.join(SRC, s)
-        if not os.path.exists(src):
-            raise Undecided("extraction break: source %s missing" % s)
-        out = os.path.join(wd, s.replace("/", "__") + ".gb")
-        cmd = ["goto-cc", "-c", src, "-o", out] + defs + inc
-        if job.avx or "avx" in s or "fma" in s:
-            cmd += ["-isystem", os.path.join(VERIF, "shim"), "-I" + os.path.join(VERIF, "shim"), "-mavx2", "-mfma"]
-            if job.strict_shim:
-                cmd += ["-DSHIM_STRICT"]
-        if job.export_static:
-            cmd += ["--export-file-local-symbols"]
-        rc, o, e = run(cmd, timeout=300)
-        if rc != 0:
-            raise Undecided("goto-cc failed on %s: %s" % (s, (e or o)[-600:]))
-        gbs.append(out)
+    gbs = [compile_source(s, job.avx or "avx" in s or "fma" in s, job.strict_shim, job.export_static) for s in job.sources]
     h = os.path.join(VERIF, "contracts", job.harness)
     a = os.path.join(wd, "a.gb")
     cmd = ["goto-cc", "--function", job.entry, h] + gbs + ["-o", a] + defs + inc
